@@ -46,6 +46,25 @@ class SerFail(Exception):
     pass
 
 
+class SerFailRuntime(RuntimeError):
+    pass
+
+
+class SerFailLookup(KeyError):
+    pass
+
+
+class SerFailType(TypeError):
+    pass
+
+
+class SerFailValue(ValueError):
+    pass
+
+
+SER_EXC = [SerFail, SerFailRuntime, SerFailLookup, SerFailType, SerFailValue, RuntimeError]
+
+
 def prepare():
     base.prepare_common()
     base.monitoring()
@@ -162,7 +181,7 @@ class Run(object):
             if p and self.fault.chance(p, "ser_raise"):
                 self.failed.append((tname, kind, key))
                 self.rc.count_fault("ser_raise")
-                raise SerFail("serializer %s.%s failed" % (tname, key))
+                raise SER_EXC[self.fault.choose(len(SER_EXC), "ser-exc-class")]("serializer %s.%s failed" % (tname, key))
             try:
                 return fn(v)
             except Exception:
